@@ -265,7 +265,7 @@ func (w *World) heightDerived(v ssa.Value, reach *Reach, depth int) bool {
 	}
 	v = stripConv(v)
 	c := w.Canon(v)
-	if strings.HasSuffix(c, ".Height") && strings.HasPrefix(c, "p") {
+	if strings.HasSuffix(c, ".Height") && (strings.HasPrefix(c, "p") || strings.HasPrefix(c, "^p")) {
 		return true
 	}
 	switch y := v.(type) {
